@@ -144,8 +144,12 @@ QE_SCENS = ["QE0", "QE1-model", "QE1-events", "QE1-error", "QE1-notfound", "QE1-
 
 
 def tasks_c15(tier, seed):
-    ts = []
     w1 = "w1-in4-default-direct"
+    # a query event that outlives a Shutdown / Serve cycle, and a new one in the second epoch
+    if tier == "quick":
+        ts = explore("QErestart", w1, 1, shards=8, timeout="100s")
+    else:
+        ts = explore("QErestart", w1, 2, shards=16, timeout="5m") + explore("QErestart", CFG_DEFAULT, 1, shards=16, timeout="5m")
     for s in QE_SCENS:
         big = s in ("QE2", "QEconc", "QEshutdownBusy")
         if tier == "quick":
